@@ -6,3 +6,4 @@ INVARIANT NothingOutside
 INVARIANT PreviewMatches
 INVARIANT RefusalClean
 CHECK_DEADLOCK TRUE
+INVARIANT RefusesImpossible
